@@ -90,6 +90,55 @@ HAND = [
 SHARED = [("struct", [("x", ("u8",)), ("y", ("u8",))]), ("struct", [("p", ("u16",))]), ("array", 2, "item", ("u8",))]
 
 
+# curated scenarios outside the shape grammar: (name, source, operation, lengths or value, expected path as a function of the length,
+# bytes that must not occur in the data).  A failure that an enclosing construct swallows (Optional, Select, GreedyRange, Peek,
+# StopIf, Union) must leave no trace in the path of a LATER failure; errors raised while computing sizes or reading terminators
+# inside parse/build carry the parse/build path.
+def _p(*names):
+    return " -> ".join(["(parsing)"] + list(names))
+
+
+def _b(*names):
+    return " -> ".join(["(building)"] + list(names))
+
+
+SCENARIOS = [
+    ("swallowed by Optional", "Struct('opt'/Optional(Struct('x'/Int16ub, 'y'/Int16ub)), 'tail'/Int32ub)", "parse", list(range(0, 8)), lambda n: _p("tail"), ()),
+    ("swallowed by GreedyRange", "Struct('items'/GreedyRange('item'/Struct('k'/Int16ub)), 'end'/Int16ub)", "parse", list(range(0, 6)), lambda n: _p("end"), ()),
+    ("swallowed by Select", "Struct('sel'/Select('a'/Struct('p'/Int32ub), 'b'/Struct('q'/Int16ub)), 't'/Int32ub)", "parse", list(range(0, 6)), lambda n: _p("sel") if n < 2 else _p("t"), ()),
+    ("cut short by StopIf", "Struct('inner'/Struct('k'/Byte, StopIf(True), 'v'/Int16ub), 'after'/Int16ub)", "parse", [0, 1, 2], lambda n: _p("inner", "k") if n < 1 else _p("after"), ()),
+    ("swallowed by Peek", "Struct('p'/Peek(Struct('deep'/Int32ub)), 'after'/Int16ub)", "parse", [0, 1], lambda n: _p("after"), ()),
+    ("swallowed inside Union", "Struct('u'/Union(None, 'a'/Optional(Struct('z'/Int32ub)), 'b'/Byte), 'after'/Int32ub)", "parse", [1, 2, 3], lambda n: _p("after"), ()),
+    ("swallowed twice, nested", "Struct('o'/Optional(Struct('i'/Optional(Struct('x'/Int32ub)), 'j'/Int32ub)), 'k'/Array(2, 'e'/Int16ub))", "parse", [0, 1, 2, 3], lambda n: _p("k", "e"), ()),
+    ("size of a self-counting VarInt prefix", "Struct('msg'/Struct('body'/Prefixed(VarInt, GreedyBytes, includelength=True)))", "parse", [0, 1, 2, 3], lambda n: _p("msg", "body"), ()),
+    ("2-byte text terminator cut mid-unit", "Struct('rec'/Struct('name'/CString('utf_16_le'), 'n'/Byte))", "parse", [0, 1, 2, 3, 4, 5], lambda n: _p("rec", "name"), (0,)),
+    ("4-byte terminator cut mid-unit", "Struct('rec'/Struct('blob'/NullTerminated(GreedyBytes, term=b'\\r\\n\\r\\n'), 'n'/Byte))", "parse", [0, 1, 2, 3, 5, 6, 7], lambda n: _p("rec", "blob"), (13,)),
+    ("4-byte text terminator", "Struct('rec'/Struct('name'/CString('utf_32_be'), 'n'/Byte))", "parse", [1, 2, 3, 5, 7], lambda n: _p("rec", "name"), (0,)),
+    ("build: alternative swallowed by Select", "Struct('o'/Select('a'/Struct('x'/Int16ub), 'b'/Struct('y'/Int8ub)), 'tail'/Int16ub)", "build", dict(o=dict(y=1), tail=-1), lambda n: _b("tail"), ()),
+    ("build: size of a self-counting VarInt prefix", "Struct('msg'/Struct('body'/Prefixed(VarInt, GreedyBytes, includelength=True)))", "build", dict(msg=dict(body=b"ab")), lambda n: _b("msg", "body"), ()),
+    ("build: swallowed by Optional then failing", "Struct('opt'/Optional(Struct('x'/Int16ub)), 'tail'/Int16ub)", "build", dict(opt=dict(x=-1), tail=70000), lambda n: _b("tail"), ()),
+]
+
+
+def _scenario(ctx, C, p):
+    name, source, op, arg, want, forbid = SCENARIOS[p["i"]]
+    d = mk(C, source)
+    if op == "build":
+        r = api.outcome(d.build, arg)
+        ctx.check("the build fails with a ConstructError", (not r.ok) and isinstance(r.exc, C.ConstructError))
+        ctx.check("path %r (got %r)" % (want(0), getattr(r.exc, "path", None)), r.exc.path == want(0))
+        return "ok"
+    n = p["n"]
+    data = ctx.bytes("data", n)
+    for b in data:
+        for f in forbid:
+            ctx.assume(b != f)
+    r = api.outcome(d.parse, data)
+    ctx.check("parsing %d bytes fails with a ConstructError" % n, (not r.ok) and isinstance(r.exc, C.ConstructError))
+    ctx.check("%d bytes: path %r (got %r)" % (n, want(n), getattr(r.exc, "path", None)), r.exc.path == want(n))
+    return "ok"
+
+
 def instances(tier, seed):
     rnd = random.Random(seed * 2003 + 9)
     shapes = list(HAND)
@@ -109,6 +158,12 @@ def instances(tier, seed):
         out.append(dict(name="build #%d %s" % (i, t[:110]), params=dict(kind="build", shape=s)))
     for i, s in enumerate(shapes[:40]):
         out.append(dict(name="sizeof #%d" % i, params=dict(kind="sizeof", shape=s)))
+    for i, sc in enumerate(SCENARIOS):
+        if sc[2] == "build":
+            out.append(dict(name="scenario %s" % sc[0], params=dict(kind="scenario", i=i, shape=None), expect=["ok"]))
+        else:
+            for n in sc[3]:
+                out.append(dict(name="scenario %s, %d bytes" % (sc[0], n), params=dict(kind="scenario", i=i, n=n, shape=None), expect=["ok"]))
     return out
 
 
@@ -295,8 +350,10 @@ def path_of(op, names):
 
 
 def harness(ctx, C, p):
-    shape = T(p["shape"])
     kind = p["kind"]
+    if kind == "scenario":
+        return _scenario(ctx, C, p)
+    shape = T(p["shape"])
     if kind == "sizeof":
         return _sizeof(ctx, C, shape)
     d = make(C, shape)
